@@ -29,7 +29,11 @@ PROVED_NOTE = ("proved: an application whose arguments evaluate at the call site
                "name as an identifier, shown necessary); nested splices / nested applications inside the body and the arguments (recursive "
                "substitution) under the condition that no macro applied meanwhile has a parameter of the same name (shown necessary). "
                "Evaluated, deferred and code-block arguments mixed in one application: proved under the union of the side conditions. "
-               "Correspondence-only: a nested application that rebinds the same code-parameter name (inlined twins).")
+               "Correspondence-only: a nested application that rebinds the same code-parameter name (inlined twins)."
+               " SOURCE TEXT: the front-end round trip (Front_roundtrip: printing a printable AST, scanning and parsing the text "
+               "gives the AST back up to positions; Front_assemble_ast_printed: assembling the printed text gives the blocks and labels of "
+               "the AST-level assembly) carries these AST-level statements to the source text of every printable program; its lexicon "
+               "side condition is discharged on the lexicon regenerated from /repo in each run.")
 MANIFEST = {
     "text": ("Coq theorem over the Gallina model of generate_macro_application (all macros/arguments of the eager kind); model "
              "tied to the code by differential runs; oracle: the implementation's output for the program equals its output for "
